@@ -239,3 +239,107 @@ func init() {
 		},
 	})
 }
+
+func init() {
+	register(&Rule{
+		Name: "client-stuck-writes-bounded", Props: []string{"C12"}, Engine: "AST", Floor: 5,
+		Doc: "a server that stops reading cannot hold a request past its timeout: Conn.Write, which waits for room in the request queue, also waits for the request's own verdict (the timer's) and hands it back where RoundTrip reads it; the two writers of frames that belong to no request (writeFrame, writePing) put a deadline of a positive constant on their write once they hold the write lock, and take it off when they are done; and the end of a stream that has had no header block with a final status is an error, not a response",
+		Run: func(p *Prog, r *Out) {
+			r.fn("(*Conn).Write", "(*Conn).writeFrame", "(*Conn).writePing", "(*Conn).limitControlWrite", "(*Conn).readStreamOwned")
+			if fd := p.decl("(*Conn).Write"); fd != nil && len(fd.Body.List) > 0 {
+				okW := false
+				if sel, ok := fd.Body.List[0].(*ast.SelectStmt); ok {
+					send, done, verdict := false, false, false
+					for _, c := range sel.Body.List {
+						cc := c.(*ast.CommClause)
+						if cc.Comm == nil {
+							continue
+						}
+						switch squash(p.text(cc.Comm)) {
+						case "c.in<-r":
+							send = true
+						case "<-c.done":
+							done = true
+						case "err:=<-r.Err":
+							// handed back without blocking, then out
+							t := stmtTexts(p, cc.Body)
+							if len(t) == 2 && t[0] == "select{caser.Err<-err:default:}" && t[1] == "return" {
+								verdict = true
+							}
+						}
+					}
+					okW = send && done && verdict
+				}
+				r.check(okW, "Write stops waiting for room when the request has been given up", p.pos(fd.Pos()), "select { c.in <- r; <-c.done; err := <-r.Err: put it back without blocking; return }", "Conn.Write waits for room in the request queue without also waiting for the request's own verdict: with the write loop stuck in a socket write the queue never drains, and once it is full every further request blocks here past MaxResponseTime, for good")
+			} else {
+				r.undecided("Write", "?", "(*Conn).Write no longer resolves")
+			}
+			for _, fn := range []string{"(*Conn).writeFrame", "(*Conn).writePing"} {
+				fd := p.decl(fn)
+				if fd == nil {
+					r.undecided(fn, "?", "no longer resolves")
+					continue
+				}
+				t := stmtTexts(p, fd.Body.List)
+				lk, lim, wr := -1, -1, -1
+				for i, x := range t {
+					switch {
+					case x == "c.lockWrites()":
+						lk = i
+					case x == "deferc.limitControlWrite()()":
+						lim = i
+					case strings.Contains(x, ".WriteTo(c.bw)") && wr < 0:
+						wr = i
+					}
+				}
+				r.check(lk >= 0 && lim > lk && wr > lim, fn+" bounds its write", p.pos(fd.Pos()), "lockWrites(); defer limitControlWrite()(); ...WriteTo", fn+" no longer puts a deadline on the write of a frame that belongs to no request: a server that stops reading keeps the write loop in that write for good, the unanswered-PING check with it, and every request queued behind it")
+			}
+			if fd := p.decl("(*Conn).limitControlWrite"); fd != nil {
+				okL := false
+				v, okc := p.pkgConst("controlWriteTimeout")
+				set, clr := false, false
+				ast.Inspect(fd.Body, func(n ast.Node) bool {
+					if c, ok := n.(*ast.CallExpr); ok && strings.HasSuffix(squash(p.text(c.Fun)), "c.c.SetWriteDeadline") && len(c.Args) == 1 {
+						a := squash(p.text(c.Args[0]))
+						if a == "time.Now().Add(controlWriteTimeout)" {
+							set = true
+						}
+						if a == "time.Time{}" {
+							// inside the function literal that is returned
+							clr = true
+						}
+					}
+					return true
+				})
+				okL = okc && v > 0 && set && clr
+				r.check(okL, "the limit is a positive constant from now, and what is handed back removes it", p.pos(fd.Pos()), "SetWriteDeadline(now + controlWriteTimeout); return func() { SetWriteDeadline(zero) }", "limitControlWrite no longer sets a deadline of a positive constant from now and returns the function that clears it: control writes are unbounded again, or the deadline stays and fails a later write that is doing fine")
+			} else {
+				r.bad("the limit is a positive constant from now, and what is handed back removes it", "?", "(*Conn).limitControlWrite no longer resolves")
+			}
+			if fd := p.decl("(*Conn).readStreamOwned"); fd != nil {
+				t := stmtTexts(p, fd.Body.List)
+				mark, end := -1, -1
+				for i, x := range t {
+					if x == "ifc.block.final{c.block.final=falser.headersDone=true}" {
+						mark = i
+					}
+				}
+				for i, s := range fd.Body.List {
+					ifs, ok := s.(*ast.IfStmt)
+					if !ok || !p.isConjunctionOf(ifs.Cond, "err==nil", "!r.headersDone", "c.endsStream(fr)") || len(ifs.Body.List) != 1 {
+						continue
+					}
+					if as, ok := ifs.Body.List[0].(*ast.AssignStmt); ok && len(as.Lhs) == 1 && p.text(as.Lhs[0]) == "err" {
+						if cl, code, okE := p.errorCall(as.Rhs[0]); okE && cl == "Reset" && code == 1 {
+							end = i
+						}
+					}
+				}
+				last := retResults(fd.Body.List[len(fd.Body.List)-1])
+				r.check(mark >= 0 && end > mark && len(last) == 1 && p.text(last[0]) == "err", "a stream that ends before its final header block is an error", p.pos(fd.Pos()), "after headersDone is updated: if err == nil && !headersDone && endsStream(fr) { err = stream error PROTOCOL_ERROR }; return err", "readStreamOwned no longer turns the end of a stream that has had no header block with a final status into a stream error: DATA alone, or a 1xx block and nothing else, is reported to the caller as a successful response")
+			} else {
+				r.undecided("readStreamOwned", "?", "(*Conn).readStreamOwned no longer resolves")
+			}
+		},
+	})
+}
